@@ -73,7 +73,7 @@ Tree07 ==
 Mem07 == {<<103,117,101,115,116>>, <<97,100,109,105,110>>}
 
 (* ---- C07 requests ---------------------------------------------------------------------------------------------- *)
-NoReq == [kind |-> "none"]
+NoReq == [kind |-> "none", ur |-> 0, occ |-> 0]
 P0 == {<<>>, <<A>>}
 P1 == {<<s>> : s \in Sigma} \cup {<<A, s>> : s \in Sigma} \cup {<<s, A>> : s \in Sigma} \cup {<<A, A, s>> : s \in Sigma}
 P2 == {<<s, u>> : s \in Sigma0, u \in Sigma0}
@@ -88,7 +88,7 @@ NamesCtx == {X, A, Btxt}
 Names == Sigma \cup NamesCtx \cup {Absent}
 
 Rq(kind, occ, path, name, newname, newpath, comment) ==
-  [kind |-> kind, occ |-> occ, path |-> path, name |-> name, newname |-> newname, newpath |-> newpath, comment |-> comment]
+  [kind |-> kind, occ |-> occ, ur |-> 0, path |-> path, name |-> name, newname |-> newname, newpath |-> newpath, comment |-> comment]
 
 K2Read == {"info", "download", "dlfolder"}
 K2Write == {"newfolder", "delete", "upload"}
@@ -129,12 +129,32 @@ AcctSeqs(L) == { << [op |-> "create350", login |-> L, new |-> <<>>] >>,
                  << [op |-> "delete351", login |-> L, new |-> <<>>] >> }
 ReqsAcct == {Rq("acct", o, Absent, Absent, Absent, Absent, Absent) @@ [ops |-> sq] : o \in {0, 1}, sq \in UNION {AcctSeqs(L) : L \in AcctLogins}}
 
-Reqs07 == ReqsList \cup ReqsK2 \cup ReqsRename \cup ReqsMove \cup ReqsUpFolder \cup ReqsAcct
+ReqsShared == ReqsList \cup ReqsK2 \cup ReqsRename \cup ReqsMove \cup ReqsUpFolder
+(* the same requests from a client that is confined to its OWN file root (Account.FileRoot = W/userroot): the
+   server-wide root is then outside for this client.  Contexts: top level and one folder down. *)
+NearPaths == {Absent, EncPath(<<A>>), EncPath(<<DotDot>>)}
+ReqsUr == {[r EXCEPT !.ur = 1] : r \in {x \in ReqsShared : x.occ = 0 /\ x.path \in NearPaths /\ x.newpath \in NearPaths \cup {Absent}}}
+          \cup {[r EXCEPT !.ur = 1, !.occ = 0] : r \in {x \in ReqsShared : x.occ = 1 /\ x.kind \in K2Read \cup {"list"} /\ x.path \in NearPaths}}
+Reqs07 == ReqsShared \cup ReqsAcct \cup ReqsUr
 
 (* the places a leaving path would land on, occupied in sandbox variant occ = 1 *)
 Landing == {SbxP \o <<X>>, SbxP \o <<<<97,98,115>>>>, SbxP \o <<Config, X \o Yaml>>, <<L1, L2, L3, X>>, <<L1, L2, X>>,
             SbxP \o <<RootBak, <<110>>>>, SbxP \o <<Config, UsersX, A \o Yaml>>}
 TreeOcc(o) == IF o = 0 THEN Tree07 ELSE [q \in DOMAIN Tree07 \cup Landing |-> IF q \in Landing THEN FileN(-1) ELSE Tree07[q]]
+(* the sandbox of a confined client: the tree lives under W/userroot, the server-wide root holds canaries *)
+UserRoot07 == SbxP \o <<<<117,115,101,114>> \o RootN>>
+TreeUr ==
+  LET inroot == {q \in DOMAIN Tree07 : Inside(q, Root07) /\ q # Root07}
+      img(q) == UserRoot07 \o SubSeq(q, Len(Root07) + 1, Len(q))
+      srv == {Root07 \o <<X>>, Root07 \o <<A>>, Root07 \o <<A, X>>, Root07 \o <<Btxt>>}
+      keep == DOMAIN Tree07 \ inroot
+  IN [q \in keep \cup {UserRoot07} \cup {img(x) : x \in inroot} \cup srv |->
+        IF q = UserRoot07 THEN DirN
+        ELSE IF q \in srv THEN (IF q = Root07 \o <<A>> THEN DirN ELSE FileN(-1))
+        ELSE IF q \in keep THEN Tree07[q]
+        ELSE Tree07[Root07 \o SubSeq(q, Len(UserRoot07) + 1, Len(q))]]
+TreeFor(r) == IF r.ur = 1 THEN TreeUr ELSE TreeOcc(r.occ)
+RootFor(r) == IF r.ur = 1 THEN UserRoot07 ELSE Root07
 
 RECURSIVE SetToSeq(_)
 SetToSeq(S) == IF S = {} THEN <<>> ELSE LET x == CHOOSE y \in S : TRUE IN <<x>> \o SetToSeq(S \ {x})
@@ -152,13 +172,13 @@ Init07 == /\ tree = Tree07 /\ rootp = Root07 /\ usersp = Users07 /\ ignore = "de
 Next07 == /\ req = NoReq
           /\ \E r \in Reqs07 :
                /\ req' = r
-               /\ res' = Do(TreeOcc(r.occ), mem, r, rootp, usersp, ignore, Deviations)
+               /\ res' = Do(TreeFor(r), mem, r, RootFor(r), usersp, ignore, Deviations)
           /\ UNCHANGED <<fvars, hist, w0>>
 
-Contained07 == req # NoReq => ContainedRes(TreeOcc(req.occ), res, rootp, usersp)
+Contained07 == req # NoReq => ContainedRes(TreeFor(req), res, RootFor(req), usersp)
 (* the law itself: a cleaned path never leaves its base, whatever the components *)
 CleanStaysInside == req # NoReq /\ req.kind # "acct" /\ req.kind # "upfolder" =>
-                      LET pr == ParsePath(req.path, {}) IN Inside(Resolve(rootp, pr.items, Val(req.name)), rootp)
+                      LET pr == ParsePath(req.path, {}) IN Inside(Resolve(RootFor(req), pr.items, Val(req.name)), RootFor(req))
 Emit07 == PrintT("B " \o ToJson(req'))
 
 (* ---- C11 ------------------------------------------------------------------------------------------------------- *)
